@@ -564,6 +564,23 @@ class FileStorage(Storage):
         return tempstore.create()
 
 
+class RamLock(object):
+    """Thread lock with the calling convention of the file locks: like
+    ``FileLock.acquire()``, ``acquire()`` does not block unless asked to, so a
+    second writer on a locked in-memory index gets ``LockError`` (after its
+    timeout) instead of waiting forever.
+    """
+
+    def __init__(self):
+        self._lock = Lock()
+
+    def acquire(self, blocking=False):
+        return self._lock.acquire(blocking)
+
+    def release(self):
+        self._lock.release()
+
+
 class RamStorage(Storage):
     """Storage object that keeps the index in memory.
     """
@@ -628,7 +645,7 @@ class RamStorage(Storage):
 
     def lock(self, name):
         if name not in self.locks:
-            self.locks[name] = Lock()
+            self.locks[name] = RamLock()
         return self.locks[name]
 
     def temp_storage(self, name=None):
